@@ -803,3 +803,95 @@ func (r *vHoldAfterGet) Get(key []byte) ([]byte, error) {
 	<-r.gate
 	return v, err
 }
+
+// H_C05_GetVsFlush: the background flush of the rotated-out memstore may complete at any synchronisation point of
+// a Get (the flusher needs no database lock): the Get still answers like the map, whether the newest version of the
+// key lives in the memstore being flushed, in an older table or nowhere.
+//
+// Natively the flusher is stalled in front of its table write (gated memstore), the Get is held right after its
+// table lookup (wrapper around the stacked reader), the flusher gets its token and finishes its cycle, the Get is
+// let go.
+func H_C05_GetVsFlush() {
+	vrt.RandPromoteBudget(0)
+	h := vNewDBEnvU(vUniverse[:1])
+	defer h.fs.Cleanup()
+	vrt.Assert(h.open(MemstoreSizeBytes(math.MaxUint64), WriteBufferSizeBytes(64), ReadBufferSizeBytes(64)) == nil, "db/open-no-error")
+	h.enableGate()
+	k := vUniverse[0]
+	if vrt.Choose("older", 2) == 1 {
+		h.put(k, []byte{vrt.Byte("v0")})
+		h.forceRotationGated()
+		vrt.Tag("older-version-in-a-table")
+	}
+	if vrt.Choose("newest", 2) == 0 {
+		h.put(k, []byte{vrt.Byte("v1")})
+	} else {
+		h.del(k)
+	}
+	// rotation: the memstore is handed to the flusher, whose cycle is still to come
+	h.gateStores()
+	h.call(func() {
+		h.db.rwLock.Lock()
+		err := h.db.rotateWalAndFlushMemstore()
+		h.db.rwLock.Unlock()
+		vrt.Assert(err == nil, "db/rotation-no-error")
+	})
+	var got []byte
+	var err error
+	reader := func() { got, err = h.db.GetBytes(k) }
+	if vrt.Symbolic() {
+		vrt.Assert(h.pending != nil, "getflush/flush-is-pending")
+		h.enableSyncScheduling()
+		reader()
+		h.autoSched = false
+		vrt.OnSync(func(kind string) {})
+	} else {
+		inside := false
+		for n := h.sched + 1; n <= h.sched+24; n++ {
+			if vrt.Choose(vrt.K("sync", n), 2) == 1 {
+				inside = true
+			}
+		}
+		if inside {
+			hold := &vHoldAfterGet{gate: make(chan struct{})}
+			h.db.sstableManager.managerLock.Lock()
+			hold.SSTableReaderI = h.db.sstableManager.currentReader
+			h.db.sstableManager.currentReader = hold
+			h.db.sstableManager.managerLock.Unlock()
+			r := h.start(reader)
+			vWaitUntil(func() bool {
+				for _, st := range vrt.GoroutineStates("vHoldAfterGet).Get") {
+					if st == "chan receive" {
+						return true
+					}
+				}
+				return r.finished()
+			})
+			h.flushStepNow()
+			close(hold.gate)
+			h.drive(r)
+			if r.pnc != nil {
+				panic(r.pnc)
+			}
+		} else {
+			reader()
+		}
+	}
+	vrt.TraceBool("found", err == nil)
+	if err == nil && len(got) == 1 {
+		vrt.Trace("value", uint64(got[0]))
+	}
+	r := h.refOf(k)
+	if r != nil && r.present {
+		vrt.Assert(err == nil && vrt.EqBytes(got, r.val), "getflush/get-of-a-present-key-during-a-flush")
+	} else {
+		vrt.Assert(errors.Is(err, ErrNotFound), "getflush/get-of-a-deleted-key-during-a-flush")
+	}
+	h.flushStepNow()
+	h.runPending()
+	h.checkReads("getflush/reads-after-the-flush")
+	if !vrt.Symbolic() {
+		h.close()
+	}
+	vrt.Reach("getflush/end")
+}
